@@ -50,8 +50,58 @@ def chan_plans(tier):
     ]
 
 
+def signal_stage(tier):
+    """Timed receives on an idle, connected channel while signals (handler without SA_RESTART) hit the waiting thread: the
+    model has no action for a signal, so nothing the model forbids may happen because of one - in particular no 'empty'
+    before the requested time, no message, no disconnection - and the channel works afterwards. (An error result that
+    names the interruption is accepted: the property is silent about it.)"""
+    import json
+    from vlib import build_harness, run_harness, write_replay
+    build_harness("os")
+    cases, i = [], 0
+    for d in ((40, 150) if tier == "quick" else (5, 40, 150, 600, 1500)):
+        for sig in ([d // 3], [d // 4, d // 2], [1], [d // 2, d // 2 + 1, d // 2 + 2]):
+            i += 1
+            cases.append({"id": i, "d_ms": d, "sig_ms": sig})
+    p = run_harness("os", ["sigwait"], stdin="\n".join(json.dumps(c) for c in cases) + "\n", timeout=600)
+    outs = {}
+    for line in p.stdout.splitlines():
+        if line.startswith("{"):
+            o = json.loads(line)
+            outs[o["id"]] = o
+    violations, interrupted = [], 0
+    for c in cases:
+        o = outs.get(c["id"])
+        why = None
+        if o is None:
+            why = "the process died or hung (rc=%s): %s" % (p.returncode, (p.stderr or "")[-300:])
+        elif o["res"] == "empty" and o["elapsed_us"] < c["d_ms"] * 1000:
+            why = "try_recv_timeout(%d ms) interrupted by a signal reported 'empty' after only %d us" % (c["d_ms"], o["elapsed_us"])
+        elif o["res"] in ("msg", "disc"):
+            why = "try_recv_timeout on an idle connected channel returned '%s'" % o["res"]
+        elif o["after"] != "msg":
+            why = "after an interrupted timed receive a blocking receive did not deliver the next message: %s" % o["after"]
+        elif o["after_us"] < 20000:
+            why = "after an interrupted timed receive a blocking receive returned before the message was sent (%d us)" % o["after_us"]
+        if o is not None and o["res"] == "error":
+            interrupted += 1
+        if why:
+            violations.append({"what": "signal during a timed receive: " + why, "key": "signal:" + why[:40],
+                               "replay": write_replay("C10", "signal-%d" % c["id"], {"property": "C10", "kind": "signal", "case": c,
+                                                                                     "observed": o})})
+            if o is None:
+                break
+    transcheck.log("  signals: %d timed receives interrupted by signals (%d answered with an error naming the interruption), %d bad" % (
+        len(cases), interrupted, len(violations)))
+    return violations, len(cases)
+
+
 def run(tier):
     res = transcheck.campaign("C10", plans(tier), "try_recv / try_recv_timeout / recv sequences")
+    sv, sn = signal_stage(tier)
+    res["violations"] += sv
+    res["coverage"]["evaluations"] = res["coverage"].get("evaluations", 0) + sn
+    res["coverage"]["timed_receives_interrupted_by_signals"] = sn
     r2 = chancheck.campaign("C10", chan_plans(tier), polls, "results of try_recv / try_recv_timeout at call granularity")
     res["violations"] += r2["violations"]
     for k in ("states", "transitions", "traces_validated_against_impl", "evaluations", "distinct_nontrivial"):
@@ -66,6 +116,23 @@ def run(tier):
 
 
 def replay(rp):
+    if rp.get("kind") == "signal":
+        import json
+        from vlib import build_harness, run_harness
+        build_harness("os")
+        c = rp["case"]
+        p = run_harness("os", ["sigwait"], stdin=json.dumps(c) + "\n", timeout=120)
+        print(p.stdout[-1500:], p.stderr[-500:])
+        o = None
+        for line in p.stdout.splitlines():
+            if line.startswith("{"):
+                o = json.loads(line)
+        bad = o is None or (o["res"] == "empty" and o["elapsed_us"] < c["d_ms"] * 1000) or o["res"] in ("msg", "disc") or o["after"] != "msg"
+        if bad:
+            print("VIOLATION property=C10 replay=(this file)")
+            return 1
+        print("case passes now")
+        return 0
     if rp.get("kind") == "chan":
         return chancheck.replay_one(rp)
     return transcheck.replay_one(rp)
